@@ -46,6 +46,10 @@ def run(prog, rep):
         rep.part(part, prog, flow)
     rep.expect_min("C11.evalflow", 6)
     rep.expect_min("C11.ctor", 17)
+    # a parameter fixed at 0 is fixed: f_<name> is never tested by truth
+    from .falsy import rows as _falsy_rows
+    rep.part(_falsy_rows, prog, rep, "C11.fixedzero", lambda name: name.startswith("f_") or name.startswith("self.f_"))
+    rep.expect_min("C11.fixedzero", 1)
     rep.expect_min("C11.mle", 17)
     rep.expect_min("C11.unmap", 15)
     rep.expect_min("C11.lsq", 4)
